@@ -46,6 +46,10 @@ CLAIMED = {
    technique="bounded exhaustive enumeration of runner sets x failing runner x backgrounds x iteration orders on the real container; event-log oracle",
    text="Every sequence of <=3 runners over {PriorityOrdered(o), Ordered(o), unordered: o in {MinInt,-1,0,1,MaxInt}} x {all eager, all lazy} x each choice of failing runner (or none) x three component backgrounds (chain, cycle, lazy dependency) x two iteration orders is started for real. Oracle: every runner exactly once, only after every needed component logged its initialisation, in ordering-contract sequence; with a failing runner Run returns an error, the invocation sequence ends with the failing runner, every strictly earlier-ranked runner ran and no strictly later-ranked one did.",
    note="Trusted: harness runners' event log. Outside: >3 runners; equal-rank runners around a failure are unconstrained."),
+ "C15": dict(engine=E1, design="§7 C15",
+   technique="bounded exhaustive enumeration of source-configuration histories (<=3 option steps x loader kinds x key trees) on the real App/Configure/viper stack; deep-merge reference model",
+   text="All 219660 sequences of <=3 steps over {SetConfigLoader, AddConfigLoader, SetConfig(file), Configure.AddLoaders} x {raw, file, command-line args} x six documents (overlapping and disjoint keys, nested map) are started for real; App.Get of every path of the union tree must equal the deep merge of the individually parsed loader outputs taken files-first then in added order, every source configured before an adding option must still be visible, and a prefix-bound struct plus a prop-bound scalar must agree with App.Get.",
+   note="Trusted: yaml parsing of the individual documents for the reference; two file loaders are equally ranked. Outside: >3 steps (thorough 4 on a reduced alphabet), paths that change between map and scalar."),
  "C10": dict(engine=E1+" (+E2 scheduler for scan-phase schedules)", design="§7 C10",
    technique="differential bounded exhaustive exploration: each program under all permutations of iteration and registration order plus every single per-call order deviation on the real container; outcome signatures (tied points masked) must coincide",
    text="C08 families under all provider permutations (registration order follows), holders that are candidates for their own field with <=2 other candidates under all permutations of (providers, holder), all 2-node graphs with self loops and 3-node graphs under all 6x6 (iteration, registration) orders, and 2-provider programs under every single non-default answer of every registry enumeration: the signature (success, per-point target, sorted slice contents, ties masked) must be identical across all executions of one program.",
